@@ -1,8 +1,10 @@
 (* Model/SchemaTx.v -- explicit transactions over the append machine of Model/Schema.v (property C11).
 
    Source anchors: transaction.py  Transaction.begin / append_data / append_files (per-file loop:
-   _require_canonical_path, validate_file_exists, parquet-only, _validate_file_schema; the operation is
-   queued AFTER the loop) / commit (empty transaction: no snapshot; otherwise one snapshot holding the
+   _require_canonical_path, validate_file_exists, parquet-only, _validate_file_schema; then the bounds are
+   verified, then _protect_adopted_files puts the pre-built files under GC protection -- in-flight markers,
+   refusal while a collection run is announced, existence re-check, removal of the markers it wrote when
+   anything fails --; the operation is queued AFTER all of that) / commit (empty transaction: no snapshot; otherwise one snapshot holding the
    base files plus every queued file) / rollback / _rollback (deletes the files this transaction wrote).
 
    A transaction is a handle, a list of calls -- each of which the caller may see raise and catch -- and
@@ -25,20 +27,38 @@ Record pfile := {
   pf_hi : option (list (Z * value))   (* (None: not supplied) -- a claim about the file, not a fact *)
 }.
 
-(* A window of failing storage operations that lasts exactly as long as one call (cleared before the
-   transaction ends):
+(* A condition that lasts exactly as long as one call (cleared before the transaction ends) -- a window of failing
+   storage operations, or a collection run announcing itself:
      FBefore      metadata reads fail from the start of the call: _resolve_table_schema -- the first thing both
                   append_data and append_files do -- meets a failing refresh()
      FMarker      writes of in-flight markers fail: append_data meets the failure once its schema argument has
-                  been checked, before anything is written (append_files writes no marker)
+                  been checked, before anything is written; append_files meets it in its protection step -- every file
+                  validated, nothing queued yet -- at the first pre-built file this transaction holds no marker for
      FAfterWrite  metadata reads fail once the call has written something: append_data has validated, written
                   its marker and its data file, and meets the failure when it queues the file (append_files
-                  reads the metadata again); append_files itself writes nothing and is not affected
+                  reads the metadata again); the first write of append_files itself is a marker, and nothing it does
+                  afterwards reads table metadata: it is not affected
+     FAnnounce    the listing of announced collection runs (metadata/collecting) fails: append_files, having written
+                  its markers, meets the failure in collection_in_progress; append_data never looks (its file has
+                  had its marker since before it existed: the protection step returns at once)
+     FCollecting  no storage failure: a collection run is announced while the call runs (an announcement in force, or
+                  one that cannot be read: it counts as a run).  append_files refuses to adopt pre-built files
+                  (CollectionInProgressError); append_data is not concerned
+     FRecheck     existence checks of data files fail once the call has written something: append_files meets the
+                  failure when it re-checks the adopted files; append_data when the file it has just written is checked
+                  by the append_files that queues it
    What the code does with such a failure is NOT written down here: it is read off the source on every run
-   (Gen/GenSchema.v: resolve_refresh_propagates, marker_failure_propagates, queue_failure_propagates -- is the
-   failing operation outside every try block, so that the exception reaches the caller?).  A handler around
-   refresh() would turn "metadata unreadable" into "no persisted schema, nothing to enforce". *)
-Inductive fault := FBefore | FMarker | FAfterWrite.
+   (Gen/GenSchema.v: resolve_refresh_propagates, marker_failure_propagates, queue_failure_propagates,
+   files_exists_failure_propagates, and for the protection step adopt_marker_failure_propagates,
+   adopt_listing_failure_propagates, adopt_refused_while_collecting, adopt_recheck_failure_propagates,
+   adopt_cleanup_on_failure -- is the failing operation outside every try block, or only inside try blocks whose
+   handlers re-raise, so that the exception reaches the caller?).  A handler around refresh() would turn
+   "metadata unreadable" into "no persisted schema, nothing to enforce". *)
+Inductive fault := FBefore | FMarker | FAfterWrite | FAnnounce | FCollecting | FRecheck.
+
+(* the windows an append_data call can meet at all / those that belong to the protection step of append_files *)
+Definition hits_records (ft : fault) : bool := match ft with FAnnounce | FCollecting => false | _ => true end.
+Definition hits_protection (ft : fault) : bool := match ft with FMarker | FAnnounce | FCollecting | FRecheck => true | _ => false end.
 
 Inductive call :=
 | CRecords (arg : option ischema) (recs : list record)      (* tx.append_data(records, schema=arg) *)
@@ -74,6 +94,50 @@ Definition to_dfile (ts : option ischema) (p : pfile) : dfile :=
 Record txstate := { q_files : list dfile; q_written : list Z }.
 Definition tx_empty : txstate := {| q_files := []; q_written := [] |}.
 
+(* The files the transaction holds an in-flight marker for (Transaction._inflight_markers, by file name): the data
+   files it wrote itself (append_data registers the marker before it writes) and the pre-built files it has adopted,
+   i.e. queued.  A call that raised leaves the set as it was: the protection step removes the markers it wrote.
+   (Not listed: the marker of an append_data call that raised between its marker and its data file -- no file of
+   that name exists -- and a marker whose removal failed as well, which only extends the protection.) *)
+Definition marked (q : txstate) : list Z := q_written q ++ map df_id (q_files q).
+
+(* _protect_adopted_files, the loop: the files that get a marker now -- those the transaction holds none for yet,
+   each once *)
+Fixpoint unprotected (m : list Z) (fs : list pfile) : list Z :=
+  match fs with
+  | [] => []
+  | p :: r => if existsb (Z.eqb (pf_id p)) m then unprotected m r else pf_id p :: unprotected (pf_id p :: m) r
+  end.
+
+(* _protect_adopted_files: None -- the files are protected and the call goes on to queue them; Some t -- the call
+   raises with tag t, nothing is queued.  With nothing to protect the step returns before it looks at anything.
+   Otherwise: markers are written (FMarker), the announced collection runs are listed (FAnnounce) and an announced
+   run refuses the adoption (FCollecting), the files are checked to be still there (FRecheck; in this model no
+   collection runs concurrently, so without a fault they are).  Whether a failure reaches the caller is regenerated. *)
+Definition protect (ft : option fault) (m : list Z) (fs : list pfile) : option Z :=
+  match unprotected m fs with
+  | [] => None
+  | _ :: _ =>
+    match ft with
+    | Some FMarker => if adopt_marker_failure_propagates then Some tag_storage_fault else None
+    | Some FAnnounce => if adopt_listing_failure_propagates then Some tag_storage_fault else None
+    | Some FCollecting => if adopt_refused_while_collecting then Some tag_files_refused else None
+    | Some FRecheck => if adopt_recheck_failure_propagates then Some tag_storage_fault else None
+    | _ => None
+    end
+  end.
+
+(* the markers the step leaves under metadata/inflight: those it wrote when the call goes on; none when marker writes
+   fail; when it raises later, none -- as long as its handler deletes what the call wrote (regenerated) *)
+Definition protect_left (ft : option fault) (m : list Z) (fs : list pfile) : list Z :=
+  match ft with
+  | Some FMarker => []
+  | _ => match protect ft m fs with
+         | None => unprotected m fs
+         | Some _ => if adopt_cleanup_on_failure then [] else unprotected m fs
+         end
+  end.
+
 (* append_files' loop: every file, in order, must have a canonical path, exist, be parquet, and -- on a
    table with a persisted schema -- carry exactly the Arrow schema the handle derives for the table schema
    (create_arrow_schema, through the cache).  true only when EVERY file passed. *)
@@ -108,7 +172,8 @@ Section TxMachine.
 
   (* tx.append_data: resolve the table schema (s1) and check the argument against it, write the in-flight marker,
      validate, convert, WRITE the data file, then queue it through append_files -- which resolves the table schema
-     again (s2) and checks the file just written like any other *)
+     again (s2) and checks the file just written like any other (s2 = None also stands for a failing existence
+     check there); its protection step finds the marker append_data registered and returns at once *)
   Definition stage_records (s1 : option (option ischema)) (marker_fails : bool) (s2 : option (option ischema))
       (w : world) (h : Z) (arg : option ischema) (recs : list record) : world * option dfile * list Z * Z :=
     match s1 with
@@ -149,26 +214,52 @@ Section TxMachine.
     | (w', None, wr, t) => (w', wr, t, [])
     end.
 
-  Definition call_files (s1 : option (option ischema)) (w : world) (h : Z) (fs : list pfile) : world * list Z * Z * list dfile :=
+  (* tx.append_files: resolve the table schema, validate every file, verify the supplied bounds, protect the files
+     (ft: what the protection step meets; m: the files this transaction holds markers for), queue them *)
+  Definition call_files (s1 : option (option ischema)) (ft : option fault) (m : list Z) (w : world) (h : Z) (fs : list pfile)
+      : world * list Z * Z * list dfile :=
     match s1 with
     | None => (w, [], tag_storage_fault, [])
     | Some t1 =>
       let (c', ok) := check_files t1 (cache_of w h) fs in
       let w1 := set_cache w h c' in
-      if ok then (w1, [], 0, map (to_dfile t1) fs) else (w1, [], tag_files_refused, [])
+      if ok then
+        match protect ft m fs with
+        | None => (w1, [], 0, map (to_dfile t1) fs)
+        | Some t => (w1, [], t, [])
+        end
+      else (w1, [], tag_files_refused, [])
     end.
 
-  Definition call_step (w : world) (h : Z) (c : call) : world * list Z * Z * list dfile :=
+  (* m: the files the transaction holds in-flight markers for when the call starts (marked) *)
+  Definition call_step (w : world) (m : list Z) (h : Z) (c : call) : world * list Z * Z * list dfile :=
     let ok := seen_schema false w in
     let bad := seen_schema true w in
     match c with
     | CRecords arg recs => call_records ok false ok w h arg recs
-    | CFiles fs => call_files ok w h fs
+    | CFiles fs => call_files ok None m w h fs
     | CRecordsF FBefore arg recs => call_records bad false bad w h arg recs
     | CRecordsF FMarker arg recs => call_records ok true ok w h arg recs
     | CRecordsF FAfterWrite arg recs => call_records ok false bad w h arg recs
-    | CFilesF FBefore fs => call_files bad w h fs
-    | CFilesF _ fs => call_files ok w h fs
+    | CRecordsF FRecheck arg recs => call_records ok false (if files_exists_failure_propagates then None else ok) w h arg recs
+    | CRecordsF FAnnounce arg recs | CRecordsF FCollecting arg recs => call_records ok false ok w h arg recs
+    | CFilesF FBefore fs => call_files bad None m w h fs
+    | CFilesF ft fs => call_files ok (Some ft) m w h fs
+    end.
+
+  (* the in-flight markers of pre-built files the call leaves behind (none for append_data: the markers of the files a
+     transaction writes itself are not followed here) *)
+  Definition call_marks (w : world) (m : list Z) (h : Z) (c : call) : list Z :=
+    let go (s1 : option (option ischema)) (ft : option fault) (fs : list pfile) :=
+      match s1 with
+      | None => []
+      | Some t1 => if snd (check_files t1 (cache_of w h) fs) then protect_left ft m fs else []
+      end in
+    match c with
+    | CFiles fs => go (seen_schema false w) None fs
+    | CFilesF FBefore fs => go (seen_schema true w) None fs
+    | CFilesF ft fs => go (seen_schema false w) (Some ft) fs
+    | _ => []
     end.
 
   Definition enqueue (q : txstate) (wr : list Z) (added : list dfile) : txstate :=
@@ -179,7 +270,7 @@ Section TxMachine.
     match cs with
     | [] => (w, q, [])
     | c :: cs' =>
-      match call_step w h c with
+      match call_step w (marked q) h c with
       | (w', wr, t, added) =>
         match run_calls w' (enqueue q wr added) h cs' with
         | (w'', q'', tr) => (w'', q'', (t, added) :: tr)
